@@ -28,6 +28,8 @@ META = dict(
 
 def cases(tier, seed=0):
   cs = []
+  from checks import fpgrid
+  cs.append(Case("fp grid DL_POLY_EAM", fpgrid.grid_case, target="DL_POLY_EAM", nr=41))
   N = EC.NAMES
   idx = 0
   if tier == "quick":
